@@ -94,7 +94,7 @@ def main():
         ],
         'checks': checks,
         'not_applicable': [],
-        'notes': 'fix: commits in /repo: 3a27357 (C13/C17), 8482d94 (C16), 5be49f6 (C17), 9cd6240 (C18), 1904d2a (C02); known finding: C11 pickle recursion (known_findings.json). Timeouts / internal errors exit 2.',
+        'notes': 'fix: commits in /repo: 3a27357 (C13/C17), 8482d94 (C16), 5be49f6 (C17), 9cd6240 (C18), 1904d2a (C02); known findings: C11 pickle recursion, C17 KeyError name for several unknown labels (known_findings.json). Timeouts / internal errors exit 2.',
     }
     with open(os.path.join(VERIF, 'MANIFEST.json'), 'w') as f:
         json.dump(m, f, indent=1)
